@@ -125,6 +125,12 @@ theorem override_first (dM dL : Nat) (base o o' : Section) (lang : String) (rest
     effective dM dL base ((lang, o) :: (lang, o') :: rest) lang = effective dM dL base [(lang, o)] lang := by
   simp [effective, List.find?]
 
+/-- of a Python property only the `@property` getter is exempt: its setter / deleter count as public methods -/
+theorem setter_counts (ms : List Member) :
+    countMethods .py (.setter :: ms) = countMethods .py ms + 1 ∧ countMethods .py (.property :: ms) = countMethods .py ms ∧
+    countMethods .ts (.setter :: ms) = countMethods .ts ms + 1 := by
+  simp [countMethods, countable, List.filter_cons]
+
 /-- non-vacuity -/
 example : countMethods .py [.pub, .priv, .dunder, .ctor, .property, .static, .pub, .asyncPub] = 4 ∧
     countMethods .ts [.pub, .priv, .ctor, .property, .static] = 3 ∧ countMethods .rs [.ctor, .pub, .priv] = 2 ∧
